@@ -28,6 +28,11 @@ def configs(tier):
                     c = R2[(ci + 2 * pi + 3 * k + 1) % len(R2)] * mult * mult
                     e += 0 if e % 2 else 1
                     c += 0 if c % 2 else 1
+                    if k == 0:
+                        # unrotated, unscaled frame (exact in floating point): integer extension / cutoff / tolerance 1..3 put lattice
+                        # points EXACTLY at the limit; "within" includes them
+                        e = 2 * (1 + (ci + pi) % 3) ** 2 * mult * mult
+                        c = 2 * (1 + (ci + 2 * pi + 1) % 3) ** 2 * mult * mult
                     pos_k = [list(pts[i]) for i in idx]
                     outside = 0
                     if k % 3 == 2 and mult == 2:
@@ -180,6 +185,10 @@ def execute(cfg):
         recs.append(r)
     # ---- matching (extension and cutoff at least the tolerance, as PeriodicFinder sets it up)
     tol2x2 = min(cfg["ext2x2"], cfg["c2x2"])
+    if tol2x2 % 2 == 0:
+        # no exact ties for the matching tolerance: get_matches_simple wraps the searched position first (floating point), so a
+        # position exactly at the tolerance is decided by rounding - not something the property can mean
+        tol2x2 -= 1
     tol = fr.length(tol2x2)
     red, U = zworld.reduce_lattice(cell, pbc)
     for q in qs:
